@@ -154,10 +154,11 @@ def run(rep):
                 impl = 'EXC:' + type(e).__name__
             lines.append('c15.beta %d %s' % (p, f2hex(nf)))
             meta.append(dict(kind='beta', p=p, nf=nf, impl=impl))
-    for _ in range(200 * mult):
+    fbeta1 = common.private(rep, qcd, '_fbeta1', 'the fbeta1 stream is skipped; as2pf itself is compared with the model as before')
+    for _ in range(200 * mult if fbeta1 else 0):
         a = rng.uniform(-0.2, 0.2) if rng.random() < 0.8 else 10 ** rng.uniform(-6, 1)
         nf = rng.randint(0, 8)
-        impl = float(qcd._fbeta1(a, nf))
+        impl = float(fbeta1(a, nf))
         lines.append('c15.fbeta1 %s %s' % (f2hex(a), f2hex(nf)))
         meta.append(dict(kind='fbeta1', a=a, nf=nf, impl=impl))
 
